@@ -34,8 +34,10 @@ import (
 //	                                       "unsupported operand"
 //	invalid-constant-evaluates-to-0        text has a numeric token bash rejects; bash reports an error, the
 //	                                       interpreter none and computes what it computes with 0 in its place
-//	increment-of-increment-error-without-side-effect   ++x++ and the like: an error in both, bash has done the first
-//	                                       increment before it
+//	increment-of-increment                 ++x++ and the like: an error in both, bash has done the first increment
+//	                                       before it; no error at all where the operand is not evaluated (1 || ++x++)
+//	negative-exponent-in-unevaluated-operand   1 || 2 ** -1: bash reports the negative exponent although the
+//	                                       operand is not evaluated (variables read as 0 there: 1 || x ** (x - 2))
 //
 // normalisations (how an error surfaces):
 //
@@ -219,11 +221,33 @@ func c20Explain(s c20State, r *arShRun, bf []string, depth int) ([]string, bool)
 			// nothing after the refused assignment is comparable
 			return []string{"array-element-assignment-unsupported"}, true
 		case unsupported && bashErr && c20PrePostRx.MatchString(compactArith(s.text)) && sf[0] == bf[0] && sf[1] == bf[1]:
-			return append([]string{"increment-of-increment-error-without-side-effect"}, chain...), true
+			// an error in both, but bash has done the first increment
+			return append([]string{"increment-of-increment"}, chain...), true
 		case (s.ctx == "exp" || s.ctx == "sub") && strings.Contains(r.Stderr, "negative array index") && sf[0] == "ERR" &&
 			bashErr && bf[0] != "ERR" && bf[1] == "0" && varsEq:
 			// bash: diagnostic, the element reads as empty / 0, the command still runs
 			return []string{"negative-subscript-aborts-command"}, true
+		}
+		if bashErr && !shErr {
+			// errors bash reports although the operand is not evaluated
+			st := newArRefState()
+			if s.e3 {
+				st.vars["e"] = "3"
+			}
+			if s.t.HasV && !s.vInlined {
+				st.vars["v"] = s.t.V
+			}
+			if s.ctx == "for" || s.ctx == "forc" {
+				st.vars["i"] = "0"
+			}
+			if _, outc, why := arRefEval(st, s.text); outc == arRefError && strings.HasSuffix(why, " [not evaluated]") {
+				switch {
+				case strings.HasPrefix(why, "exponent less than 0") && strings.Contains(s.text, "**"):
+					return []string{"negative-exponent-in-unevaluated-operand"}, true
+				case strings.HasPrefix(why, "assignment requires lvalue") && c20PrePostRx.MatchString(compactArith(s.text)):
+					return []string{"increment-of-increment"}, true
+				}
+			}
 		}
 		if zeroed, has := c20InvalidNumTokens(s.text); has && bashErr && !shErr {
 			s2 := s
